@@ -4,6 +4,7 @@ import (
 	"fmt"
 	"os"
 	"strings"
+	"unsafe"
 
 	"github.com/mdzio/go-mqtt/message"
 	"github.com/mdzio/go-mqtt/service"
@@ -468,6 +469,43 @@ func raceScenarios() []raceScenario {
 			vsched.Quiesce()
 		}, true})
 	}
+	// (xii) client role: the processor acknowledges incoming QoS 1 publishes (a producer of the
+	// outgoing ring) while the application publishes and then calls Disconnect
+	out = append(out, raceScenario{"client: incoming QoS 1 publishes || Publish + Disconnect", func() {
+		w := NewClientWorld()
+		if !w.Connected("cid") {
+			return
+		}
+		if _, err := w.Issue("sub", []string{"t"}, []byte{1}, ""); err != nil {
+			return
+		}
+		w.Settle()
+		ps := w.Srv.Take()
+		if len(ps) != 1 {
+			return
+		}
+		w.ServerSend(&refcodec.Packet{Type: refcodec.SUBACK, ID: ps[0].ID, Codes: []byte{1}})
+		w.Settle()
+		vsched.Mark()
+		for i := 0; i < 2; i++ {
+			w.Srv.Conn.Write(refcodec.Encode(&refcodec.Packet{Type: refcodec.PUBLISH, Topic: []byte("t"), QoS: 1, ID: uint16(30 + i), Payload: []byte("in")}))
+		}
+		vsched.RaceRelease(unsafe.Pointer(w))
+		vsched.Go("app", func() {
+			vsched.RaceAcquire(unsafe.Pointer(w))
+			w.Issue("pub0", []string{"u"}, nil, "out")
+			w.Cl.Disconnect()
+		})
+		vsched.Go("server-reader", func() {
+			buf := make([]byte, 4096)
+			for {
+				if _, err := w.Srv.Conn.Read(buf); err != nil {
+					return
+				}
+			}
+		})
+		vsched.Quiesce()
+	}, true})
 	return out
 }
 
